@@ -169,6 +169,13 @@ class Interp(ExprMixin, CallMixin):
         if base.types is None or frame.func is None:
             return
         in_init = frame.func.name == "__init__"
+        # a private helper analysed on its own stores what it is handed (`regex.head = head`): the value is unknown here,
+        # but every caller is analysed with the helper inlined and records what it really passes - an unknown value taken
+        # straight from a parameter of a private function therefore says nothing about the field
+        fname = frame.func.name
+        if fname.startswith("_") and not (fname.startswith("__") and fname.endswith("__")) and val.types is None and \
+                val.alias and all(l[0].startswith("p:") for l in val.alias) and frame.depth == 0:
+            return
         for ty in base.types:
             if ty in self.prog.classes:
                 if not (in_init and frame.self_av is not None and base.alias == frame.self_av.alias):
